@@ -92,7 +92,12 @@ where
         }
         y.longterm_bundles
             .entry(id)
-            .and_modify(|bundles| bundles.push(key_bundle.clone()))
+            .and_modify(|bundles| {
+                // Registering the same bundle again must not change the state.
+                if !bundles.contains(&key_bundle) {
+                    bundles.push(key_bundle.clone())
+                }
+            })
             .or_insert(vec![key_bundle]);
         Ok(y)
     }
